@@ -202,7 +202,7 @@ struct Lin_Script : public Script {
   int n; Linear_Expression E[3]; Coefficient K[3];
   Lin_Script() { n = rnd(1, G().maxdim); reset(); }
   const char* domain() const { return "lin"; }
-  void reset() { for (int i = 0; i < 3; ++i) { E[i] = Linear_Expression(); E[i].set_space_dimension(n); K[i] = 0; } }
+  void reset() { for (int i = 0; i < 3; ++i) { E[i] = Linear_Expression(); E[i].set_space_dimension(n); K[i] = Coefficient(wide()); } }
   static long wide() { return coin(40) ? rc() : rc_wide(); }
   static long wide_nz() { for (;;) { long v = wide(); if (v) return v; } }
 
